@@ -32,6 +32,8 @@ def digest_of(spec, pollute, holder=None):
     if holder is not None:
         holder["sm"] = o["sm"]
     opts = {"random_seed": spec["seed"], "hibernation": spec["hibernation"]}
+    if not spec["hibernation"] and spec["seed"] % 2 == 0:
+        del opts["hibernation"]  # an omitted option is its default (off), whatever other configurations of the process said
     tree = T.DemeTree(TreeConfig(o["levels"], o["gsc"], o["sm"], options=opts, config_class_to_deme_class=o["custom"]))
     after_init = hashlib.sha1(np.random.get_state()[1].tobytes() + repr(random.getstate()).encode()).hexdigest()[:12]
     steps = 0
